@@ -15,6 +15,9 @@ GenNext ==
           /\ (i.k # "tomb" => ~del)
           \* "create": nodes come into being on either side while the link is down
           /\ (Focus = "create" => i.e \in Fresh /\ ~del /\ link = "down")
+          \* "ept": node B also hangs directly below the device (a mirror set up by the driver) and during
+          \* the outage nothing but the edge point of its placement below A is written
+          /\ (Focus = "ept" => i.k \in {"ept", "tomb"} /\ i.e = "eB" /\ link = "down")
           \* "pt": during the outage nothing but one kind of node point of existing nodes is written
           /\ (Focus = "pt" => i.k = "pt" /\ i.e \notin Fresh /\ link = "down")
           \* an upstream that is being restarted takes no writes
@@ -35,6 +38,6 @@ Json == INSTANCE Json
 LastWrite(i) == LET ws == {k \in 1..Len(hist) : hist[k].op = "write" /\ hist[k].id = Label(i)}
                 IN IF ws = {} THEN 0 ELSE hist[CHOOSE k \in ws : \A j \in ws : j <= k].n
 Dump == (writes = MaxWrites /\ link = "up" /\ outages = MaxOutages) =>
-          PrintT(Json!ToJson([ops |-> hist, final |-> [l \in {Label(i) : i \in Idents} |->
+          PrintT(Json!ToJson([focus |-> Focus, ops |-> hist, final |-> [l \in {Label(i) : i \in Idents} |->
                                   LastWrite(CHOOSE i \in Idents : Label(i) = l)]]))
 =============================================================================
